@@ -14,7 +14,7 @@ pub fn prop() -> Prop {
     Prop {
         id: "C09",
         level: "model_checking",
-        rule: "all streams of <=4 (thorough <=6) rows {k,v,id} over the group keys {\"a\",\"b\",\"\",\"é\",1,null,absent,\"ab\",\"null\",[\"a\"]} (including the empty stream and streams whose every row is dropped) x 13 upstream pipelines (take 35 and skip 3 take 100 among them; none, select, select of the key only (so that rows repeat), filter, unique, sort by id desc, sort by the mixed-type key, skip+take, split, take 0, select+sort+skip+take) x {--group-by=.k, --group-by=(get . \"k\"), --merge} x {json, text output}; long cyclic streams of 17, 40, 300 and 1100 rows; streams with 15..257 distinct keys each coming back; non-trivial = two rows share a key or a row is dropped for its key; distinct by construction",
+        rule: "all streams of <=4 (thorough <=6) rows {k,v,id} over the group keys {\"a\",\"b\",\"\",\"é\",1,null,absent,\"ab\",\"null\",[\"a\"]} (including the empty stream and streams whose every row is dropped) x 15 upstream pipelines (--unique on a selection without the key; two selections under one name; take 35 and skip 3 take 100 among them; none, select, select of the key only (so that rows repeat), filter, unique, sort by id desc, sort by the mixed-type key, skip+take, split, take 0, select+sort+skip+take) x {--group-by=.k, --group-by=(get . \"k\"), --merge} x {json, text output}; long cyclic streams of 17, 40, 300 and 1100 rows; streams with 15..257 distinct keys each coming back; non-trivial = two rows share a key or a row is dropped for its key; distinct by construction",
         explanation: "exactly one value must be printed, after the input ended; it is compared (a) with the documented grouping applied to the rows the same pipeline prints without grouping (differential) and (b) with the reference pipeline",
         assumptions: COMMON_ASSUMPTIONS.to_vec(),
         guards: vec!["many-distinct-keys", "empty-input", "no-row-survives", "non-string-key-dropped", "absent-key-dropped", "two-rows-share-a-key", "limiter-before-grouper", "empty-string-key", "non-ascii-key", "text-output"],
@@ -33,6 +33,9 @@ struct Up {
     name: &'static str,
     cfg: Config,
     split: bool,
+    /// the printed rows carry the group key as their member `k` (so the grouping can be recomputed from them);
+    /// otherwise only --merge is compared differentially and --group-by with the reference pipeline alone
+    key_in_row: bool,
 }
 
 fn upstreams() -> Vec<Up> {
@@ -42,7 +45,8 @@ fn upstreams() -> Vec<Up> {
         if split {
             c.split = Some(p(".rows"));
         }
-        Up { name, cfg: c, split }
+        let key_in_row = c.selects.is_empty() || c.selects.iter().any(|(_, n)| n == "k") && c.selects.iter().filter(|(_, n)| n == "k").count() == 1;
+        Up { name, cfg: c, split, key_in_row }
     };
     vec![
         mk("none", &|_| {}, false),
@@ -61,6 +65,16 @@ fn upstreams() -> Vec<Up> {
         }, false),
         mk("split", &|_| {}, true),
         mk("take0", &|c| c.take = Some(0), false),
+        // --unique on a selection that leaves the group key out: which of two equal rows survives decides the groups
+        mk("unique-on-v", &|c| {
+            c.selects = vec![(p(".v"), "v".into())];
+            c.unique = true
+        }, false),
+        // two selections under one name (the row printed is the same row that is grouped / merged)
+        mk("same-name-twice+unique", &|c| {
+            c.selects = vec![(p(".v"), "x".into()), (p(".k"), "x".into())];
+            c.unique = true
+        }, false),
         mk("take35", &|c| c.take = Some(35), false),
         mk("skip3-take100", &|c| {
             c.skip = 3;
@@ -108,6 +122,7 @@ fn explore(ctx: &mut Ctx, up: &Up, rows: &[V]) {
             ctx.trace_validated();
             ctx.state(&(up.name, *gname, json::to_text(&V::Arr(r.clone()))));
             ctx.transition(&(up.name, *gname, text, r.len()));
+            let differential = up.key_in_row || matches!(g, Group::Merge);
             let expected = group_rows(&r, g);
             // bookkeeping for the non-triviality rule and the guards
             let mut nontrivial = false;
@@ -171,7 +186,7 @@ fn explore(ctx: &mut Ctx, up: &Up, rows: &[V]) {
                 }
             };
             let mut ok = true;
-            if got != expected {
+            if differential && got != expected {
                 ok = false;
                 ctx.violation(
                     "collection-differs-from-grouping-of-the-ungrouped-rows",
